@@ -8,11 +8,11 @@ func registerMore(m map[string]propSpec) {
 	c01.Engines = append(c01.Engines, engine{Harness: "adapt", Overlay: "base", Name: "sched", Shards: 8})
 	m["C01"] = c01
 	m["C10"] = propSpec{Level: "model_checking", Engines: []engine{
-		{Harness: "mux", Overlay: "mux", Name: "mux", Shards: -1, MemMB: 4096},
+		{Harness: "mux", Overlay: "mux", Name: "mux", Shards: -1, MemMB: 4096, ThoroughTimeoutS: 4 * 3600},
 		{Harness: "muxreal", Overlay: "base", Name: "real"},
 	}}
-	m["C11"] = propSpec{Level: "model_checking", Engines: []engine{{Harness: "mux", Overlay: "mux", Name: "mux", Shards: -1, MemMB: 4096}}}
-	m["C09"] = propSpec{Level: "model_checking", Engines: []engine{{Harness: "syncx", Overlay: "base", Name: "seam"}, {Harness: "syncx", Overlay: "base", Name: "full"}}}
+	m["C11"] = propSpec{Level: "model_checking", Engines: []engine{{Harness: "mux", Overlay: "mux", Name: "mux", Shards: -1, MemMB: 4096, ThoroughTimeoutS: 4 * 3600}}}
+	m["C09"] = propSpec{Level: "model_checking", Engines: []engine{{Harness: "syncx", Overlay: "base", Name: "seam"}, {Harness: "syncx", Overlay: "base", Name: "full"}, {Harness: "procs", Overlay: "base", Name: "presync", Shards: 2}}}
 	m["C07"] = propSpec{Level: "fault_enumeration", Engines: []engine{
 		{Harness: "faults", Overlay: "base", Name: "answers"},
 		{Harness: "faults", Overlay: "base", Name: "cuts", Shards: 2},
@@ -31,6 +31,7 @@ func registerMore(m map[string]propSpec) {
 		{Harness: "adapt", Overlay: "base", Name: "race", Race: true},
 		{Harness: "unsol", Overlay: "base", Name: "content"},
 		{Harness: "unsol", Overlay: "base", Name: "abandon", Shards: 3},
+		{Harness: "unsol", Overlay: "base", Name: "restart", Shards: 2},
 	}}
 	m["C17"] = propSpec{Level: "fault_enumeration", Engines: []engine{
 		{Harness: "reg", Overlay: "base", Name: "names", Shards: 8},
